@@ -76,6 +76,47 @@ func runThorough(a *Analysis, reg *Registry, ri *RunInfo, prop, repo, verif stri
 			reg.OK("thorough GOARCH=386", prop, "", "all obligations also discharged for GOARCH=386")
 		}
 	}()
+	// (1b) order independence: the same obligations decided again with the terms of every
+	// polynomial visited in three other fixed orders (Go's map iteration order is random;
+	// wherever it can matter the analyser goes through Poly.sortedTerms — this is the test
+	// that nothing is left that depends on it). A different verdict is an analyser defect.
+	func() {
+		sig := func(r *Registry) string {
+			var out []string
+			for _, o := range r.Obs {
+				if o.st != Discharged && !strings.HasPrefix(o.Rule, "thorough ") {
+					out = append(out, o.Rule+" "+o.Construct)
+				}
+			}
+			sort.Strings(out)
+			return strings.Join(out, " || ")
+		}
+		base := sig(reg)
+		var diffs []string
+		for k := 1; k <= 3; k++ {
+			termOrder = k
+			alt := NewRegistry(prop)
+			func() {
+				defer func() {
+					if rec := recover(); rec != nil {
+						alt.Undecided("analyser", "panic", "", fmt.Sprint(rec))
+					}
+				}()
+				propFuncs[prop](a, alt)
+				runDeps(prop, a, alt)
+			}()
+			if s := sig(alt); s != base {
+				diffs = append(diffs, fmt.Sprintf("order %d: %s", k, clip(s, 300)))
+			}
+		}
+		termOrder = 0
+		if len(diffs) == 0 {
+			reg.OK("thorough order-independence", prop, "", "the same verdict on every obligation with polynomial terms visited in 3 other orders")
+		} else {
+			fmt.Printf("SELFTEST-WARNING property=%s verdict depends on term order: %s\n", prop, strings.Join(diffs, "; "))
+			reg.Notes = append(reg.Notes, "order-dependence: "+strings.Join(diffs, "; "))
+		}
+	}()
 	// (2) catalogue
 	var entries []catEntry
 	if b, err := os.ReadFile(filepath.Join(verif, "catalog", prop+".json")); err == nil {
